@@ -76,7 +76,7 @@ func classify(err error) string {
 	switch {
 	case strings.Contains(msg, "mismatch in content integrity"):
 		return "mismatch"
-	case errors.Is(err, varint.ErrOverflow), errors.Is(err, varint.ErrNotMinimal) && !errors.As(err, &ic):
+	case (errors.Is(err, varint.ErrOverflow) || errors.Is(err, varint.ErrNotMinimal)) && !errors.As(err, &ic):
 		return "badvarint"
 	case errors.As(err, &ic):
 		return "badcid"
@@ -249,6 +249,9 @@ func (o *Out) Hash(code uint64, data []byte) {
 	key := fmt.Sprintf("%d/%x", code, data)
 	if o.hashed[key] {
 		return
+	}
+	if len(data) > 0 {
+		o.Hash(code, nil) // the model asks "is this function registered, how long is its output" at the empty input
 	}
 	h, err := mh.Sum(data, code, -1)
 	if err != nil {
